@@ -1057,3 +1057,22 @@ pub fn list_arity_file(declared: usize, actual: usize) -> Vec<u8> {
     let _ = x;
     head
 }
+
+/// a valid message whose checksum fits one byte and is sent in the short form `62 xx`
+/// (the transaction id is searched so that the checksum's first wire byte is zero)
+pub fn short_crc_message(rng: &mut Rng) -> (Vec<u8>, GMsg) {
+    let mut m = gmsg(rng, 3);
+    m.tid = vec![0, 0, 0];
+    loop {
+        m.tid[0] = rng.byte();
+        m.tid[1] = rng.byte();
+        m.tid[2] = rng.byte();
+        let head = { Enc { rng: &mut Rng::new(7), plain: true }.msg_head(&m) };
+        let c = crc16_x25(&head);
+        if c & 0xff == 0 {
+            let mut x = head;
+            x.extend_from_slice(&[0x62, (c >> 8) as u8, 0x00]);
+            return (x, m);
+        }
+    }
+}
